@@ -28,6 +28,9 @@ KnownBad(class, stage) ==
   \/ class = "error/api-level-user-type" /\ stage = "typecheck" /\ "codegen.api_error_user_type" \in Deviations
   \/ class = "views/recursive-result-type" /\ stage = "typecheck" /\ "codegen.recursive_result_type_views" \in Deviations
   \/ class = "payload/whole-in-header" /\ stage = "typecheck" /\ "codegen.primitive_payload_in_header" \in Deviations
+  \* a map keyed by Boolean / Float32 / Float64 in an HTTP body: the OpenAPI generators marshal an example of it,
+  \* encoding/json refuses such maps, and `goa gen` fails
+  \/ class = "map/key-not-json" /\ stage = "gen" /\ "codegen.map_key_not_json_encodable" \in Deviations
 
 VARIABLES class,     \* class of the program under way
           stage,     \* index into Stages of the next stage to run (6 = finished)
